@@ -309,6 +309,18 @@ static bool model_step_inner(Model &m, Op &op) {
     if (op.file < 0 || op.file >= (int)m.files.size()) { op.skip = true; return false; }
     MFile &f = m.files[op.file];
     auto skip = [&]() { op.skip = true; return false; };
+    if (op.alt_rank >= 0 && (op.kind == OP_DEF_DIM || op.kind == OP_DEF_VAR || op.kind == OP_RENAME_DIM || op.kind == OP_RENAME_VAR || op.kind == OP_PUT_ATT || op.kind == OP_ENDDEF2)) {
+        // C08: one rank passes a different name / value to a collective metadata call.  In safe mode every rank must get the same error and nothing may change;
+        // without safe mode the behaviour is undefined, so the disagreement is dropped (the op is executed with agreeing arguments).
+        bool differs = op.alt_name.empty() ? (op.alt_val != (op.kind == OP_ENDDEF2 ? op.a[1] : op.a[0])) : (op.alt_name != ((op.kind == OP_RENAME_DIM || op.kind == OP_RENAME_VAR) ? op.name2 : op.name));
+        if (op.kind == OP_DEF_VAR && op.alt_name.empty() && !type_ok_for_format((int)op.alt_val, f.open ? f.format : 1)) differs = false;
+        if (op.kind == OP_DEF_DIM && op.alt_name.empty() && op.alt_val <= 0) differs = false;
+        if ((op.kind == OP_PUT_ATT || op.kind == OP_RENAME_DIM || op.kind == OP_RENAME_VAR) && op.alt_name.empty()) differs = false;
+        if (m.safe_mode && m.nprocs > 1 && op.alt_rank < m.nprocs && differs) {
+            Model t = m; t.cur_ops = nullptr; t.opidx = opidx; Op o2 = op; o2.alt_rank = -1; bool ok = model_step_inner(t, o2);
+            if (ok && !o2.skip && o2.exp_rc == NC_NOERR && o2.exp_rc_rank.empty()) { op.rc_any = true; op.note = "multidefine"; return true; }   // state unchanged
+        }
+    }
     switch (op.kind) {
     case OP_CREATE: {
         if (f.open || op.name.empty()) return skip();
